@@ -47,6 +47,7 @@ def cases(tier, seed):
         out.append({"kind": "model", "T": T, "rotset": rotset,
                     "mask": ("none", "none", "halfspace", "box", "ball-bool")[int(rng.integers(0, 5))],
                     "model": ("ZNCC", "ZNCC", "NCC", "PCC")[int(rng.integers(0, 4))],
+                    "tilt": ("none", "none", "y60", "y4055", "x50", "dual")[int(rng.integers(0, 6))],
                     "S": int(rng.choice([22, 24, 25])), "iseed": int(rng.integers(0, 2**31)), "cost": 2.0 * T})
     for i in range(nl):
         out.append({"kind": "loader", "entry": ("stack", "multi", "multi", "group-list", "group-map")[int(rng.integers(0, 5))],
@@ -126,6 +127,15 @@ def _model_case(case):
         mask = np.sqrt((zz ** 2).sum(0)) <= S / 2 - 1.5          # boolean dtype on purpose
     else:
         mask = None
+    # a tilt model: the wedge belongs to the sub-volume's frame and is the same for every candidate
+    from vcheck.props.c04 import tilt_model
+
+    tname = p.get("tilt", "none") if mask is None else "none"
+    planted_ok = not (p["model"] == "PCC" and tname != "none")   # see DESIGN 9.2: un-normalised score under a wedge
+    if tname != "none":
+        kw["tilt"] = tilt_model(tname)
+        case.count("models_with_tilt")
+    loose = mask is not None or tname != "none"
     model = Model(tmpls if T > 1 else (tmpls[0] if rng.random() < 0.5 else [tmpls[0]]), mask, **kw)
     case.check(model.niter == T * K, "model.niter != T*K", niter=model.niter, T=T, K=K)
     log = CandidateLog(model)
@@ -135,7 +145,7 @@ def _model_case(case):
     if T * K > 1:
         case.nontrivial((T, K, p["iseed"]))
     for j, k in pairs:
-        d = rng.uniform(-M + 0.2, M - 0.2, size=3) if mask is None else rng.uniform(-0.6, 0.6, size=3)
+        d = rng.uniform(-M + 0.2, M - 0.2, size=3) if not loose else rng.uniform(-0.6, 0.6, size=3)
         img = gen.render_box(shape, sp[j], R=rots[k], d=d)
         res = model.align(img, (M, M, M))
         cands = log.take()
@@ -143,29 +153,35 @@ def _model_case(case):
         want_label = k * T + j
         ok_label = int(res.label) == want_label
         mech = None
-        case.check(ok_label, "align: label does not identify (template j, rotation k) in rotation-major order",
-                   mech, got=int(res.label), want=want_label, T=T, K=K, j=j, k=k, model=p["model"])
+        case.check(ok_label or not planted_ok, "align: label does not identify (template j, rotation k) in rotation-major order",
+                   mech, got=int(res.label), want=want_label, T=T, K=K, j=j, k=k, model=p["model"], tilt=tname)
         if p["model"] in ("ZNCC", "NCC"):
             case.maxobs("max_one_minus_planted_score" + ("_masked" if mask is not None else ""), 1 - float(res.score))
             case.check(float(res.score) >= 0.95, "align: score of the planted (template, rotation) candidate is low "
                        "(sub-volume and candidate not masked alike?)", None, score=float(res.score), mask=mk, T=T, K=K,
                        j=j, k=k)
-        case.check(gen.quat_close(res.quat, rots[k].as_quat(), 1e-5),
+        case.check(gen.quat_close(res.quat, rots[k].as_quat(), 1e-5) or not planted_ok,
                    "align: reported rotation is not the candidate rotation that was planted", None,
                    got=res.quat, want=rots[k].as_quat(), T=T, K=K, j=j, k=k, label=int(res.label))
         err = float(np.abs(np.asarray(res.shift, float) - d).max())
         case.maxobs("max_shift_err", err)
-        case.check(err <= (TOLERANCES["shift_px"] if mask is None else 0.5), "align: shift is not the planted displacement",
-                   None, err=err, d=d, got=res.shift, T=T, K=K, j=j, k=k, mask=mk)
+        case.check(err <= (0.5 if loose else TOLERANCES["shift_px"]) or not planted_ok, "align: shift is not the planted displacement",
+                   None, err=err, d=d, got=res.shift, T=T, K=K, j=j, k=k, mask=mk, tilt=tname)
         # fit
         out_img, rf = model.fit(img, (M, M, M))
         cands_f = log.take()
-        case.check(gen.quat_close(rf.quat, rots[k].as_quat(), 1e-5) and
-                   float(np.abs(np.asarray(rf.shift, float) - d).max()) <= (TOLERANCES["shift_px"] if mask is None else 0.5),
+        case.check(not planted_ok or gen.quat_close(rf.quat, rots[k].as_quat(), 1e-5) and
+                   float(np.abs(np.asarray(rf.shift, float) - d).max()) <= (0.5 if loose else TOLERANCES["shift_px"]),
                    "fit: result is not the planted (rotation, shift)",
                    "fit.zip-truncation" if T > 1 else None,
-                   got_quat=rf.quat, want_quat=rots[k].as_quat(), shift=rf.shift, d=d, T=T, K=K, j=j, k=k)
-        if T > 1:
+                   got_quat=rf.quat, want_quat=rots[k].as_quat(), shift=rf.shift, d=d, T=T, K=K, j=j, k=k, tilt=tname)
+        # fit and align are two entry points to the same search: same candidates, same footing, same winner
+        same = (int(rf.label) == int(res.label) and float(np.abs(np.asarray(rf.shift, float) - np.asarray(res.shift, float)).max()) <= 1e-4
+                and abs(float(rf.score) - float(res.score)) <= 1e-4 * max(1.0, abs(float(res.score))))
+        case.check(same, "fit and align disagree on the same sub-volume (candidates not scored on the same footing)", None,
+                   fit=(int(rf.label), rf.shift, float(rf.score)), align=(int(res.label), res.shift, float(res.score)),
+                   tilt=tname, T=T, K=K, model=p["model"])
+        if T > 1 and planted_ok:
             case.check(int(rf.label) == want_label, "fit: label does not identify the planted template",
                        "fit.zip-truncation", got=int(rf.label), want=want_label, T=T, K=K, j=j, k=k)
         case.check(len(cands_f) == T * K, "fit: not every (template, rotation) candidate was evaluated",
@@ -227,7 +243,9 @@ def _loader_case(case):
     S = 24
     shape = (S, S, S)
     M = 2.0
-    sp = species(rng, shape, T, margin=M + 4.6)
+    sp = species(rng, shape, T + 1, margin=M + 4.6)
+    decoy = gen.render_box(shape, sp[T])      # a template that is searched by one group only and never planted
+    sp = sp[:T]
     tmpls = [gen.render_box(shape, b) for b in sp]
     rot_arg, rots = rotation_set(rng, p["rotset"])
     K = len(rots)
@@ -268,8 +286,13 @@ def _loader_case(case):
     else:
         grp = loader.groupby("g")
         arg = list(tmpls) if entry == "group-list" else {"a": list(tmpls), "b": list(tmpls)}
+        uneven = entry == "group-map" and rng.random() < 0.5
+        if uneven:      # template lists of different lengths per key: labels are decoded per group
+            arg[("a", "b")[int(rng.integers(0, 2))]].append(decoy)
+            case.count("group_map_uneven")
         res = grp.align_multi_templates(arg, max_shifts=M * s, alignment_model=Model, **kw)
         out = Molecules.concat([ld.molecules for _, ld in res])
+    uneven = entry == "group-map" and locals().get("uneven", False)
     if T * K > 1:
         case.nontrivial((entry, T, K, p["iseed"]))
     if not case.check(len(out) == nm, "loader search lost molecules", n=len(out)):
@@ -289,6 +312,8 @@ def _loader_case(case):
                 mech = "multi.single-template-label"
             if entry == "group-map" and K > 1 and T != 2:
                 mech = mech or "group.remainder-len-mapping"
+            if entry == "group-map" and K > 1 and uneven:
+                mech = "group.remainder-last-key"
             case.check(got == js[a], "loader search: label feature does not identify the planted template", mech,
                        entry=entry, got=got, want=js[a], T=T, K=K, k=ks[a])
 
